@@ -15,7 +15,12 @@ Complete small-scope input enumeration on the real code:
                absent chromosome, query-order independence), gdist1g/2g/1p/2p incl. index windows,
                rprob*, interp_gmap (+ the derived map obeys the own-marker law), remove()/select()
                of every single row followed by build_spline() (state and interpolation of the
-               remaining rows), interp_xoprob on three matrix classes x both map functions; every
+               remaining rows), shrinking the chromosome SET (remove / select / interp_gmap onto
+               fewer chromosomes, then build_spline(): the dropped chromosome must be reported
+               missing), every public method documented as non-mutating (to_pandas in both units,
+               to_csv, to_egmap, copy, interp_*, gdist*, rprob*, congruence, ...) leaves the full
+               state and all answers bit-identical for both construction units and a second export
+               equals the first, interp_xoprob on three matrix classes x both map functions; every
                call must leave its argument arrays and the map untouched.
                quick tier: second chromosome from a covering set; thorough tier: all pairs of
                chromosome configurations (3+3 markers: every first chromosome x every physical
@@ -557,6 +562,8 @@ def run_laws(ctx, mc: MapCase):
     allok &= _laws_interp_gmap(ctx, mc, g, case, own, inside, outside, absentq)
 
     allok &= _laws_edit(ctx, mc, case)
+    allok &= _laws_chromset(ctx, mc, case)
+    allok &= _laws_nonmutating(ctx, mc, case)
 
     def final_state():
         _check_state(g, mc, P)
@@ -597,6 +604,158 @@ def _laws_edit(ctx, mc, case):
                         lambda: f"after {op} of row {i} and build_spline(): interpolation {out.tolist()} expected {mc2.q_exp.tolist()} for rows {[(r[0], r[1], r[2]) for r in mc2.rows]}")
                 ctx.flag("edit:" + op)
             ok &= _law(ctx, edit, case, f"{P}.{op}:")
+    return ok
+
+
+def _laws_chromset(ctx, mc, case):
+    """The chromosome SET of one map object shrinks (all markers of a chromosome removed / only the others selected /
+    interp_gmap onto fewer chromosomes) and build_spline() is called: the remaining rows are interpolated as before and
+    the dropped chromosome is now absent from the map, i.e. positions on it are reported missing."""
+    P = mc.clsname
+    ok = True
+    chroms = mc.model.chroms
+    if len(chroms) < 2:
+        return True
+    for drop in chroms:
+        rest = [r for r in mc.rows if r[0] != drop]
+        gone = [j for j, r in enumerate(mc.rows) if r[0] == drop]
+        keep = [j for j, r in enumerate(mc.rows) if r[0] != drop]
+        mc2 = MapCase(mc.clsname, "auto", rest, mc.absent)
+        dq_c, dq_x = _q([(r[0], r[1]) for r in mc.rows if r[0] == drop] + [(drop, mc.rows[gone[0]][1] + 1)])
+        for op in ("remove", "select", "interp_gmap"):
+            def shrink(op=op, drop=drop, mc2=mc2, gone=gone, keep=keep, dq_c=dq_c, dq_x=dq_x):
+                g = build(mc.clsname, "auto", mc.rows[::-1])
+                before = g.interp_genpos(dq_c, dq_x)         # the dropped chromosome is interpolated while it is in the map
+                require(not numpy.isnan(before).any(), P + ".interp_genpos:outside-missing", "chromosome of the map reported missing")
+                if op == "remove":
+                    g.remove(numpy.array(gone, dtype="int64"))
+                elif op == "select":
+                    g.select(numpy.array(keep, dtype="int64"))
+                else:
+                    kw = {}
+                    if mc.ext is not None:
+                        kw = {k: v[keep] for k, v in mc.ext.items()}
+                    g = g.interp_gmap(mc.c_chr[keep], mc.c_phy[keep], **kw)
+                g.build_spline()
+                ctx.transitions += 4
+                ctx.evaluations += 1
+                got = sorted(zip(g.vrnt_chrgrp.tolist(), g.vrnt_phypos.tolist(), g.vrnt_genpos.tolist()))
+                require(len(got) == len(mc2.rows) and all(a[0] == r[0] and a[1] == r[1] and close(a[2], r[2]) for a, r in zip(got, mc2.rows)),
+                        f"{P}.{op}:state", lambda: f"after dropping chromosome {drop} by {op}: rows {got}")
+                out = g.interp_genpos(mc2.q_chr, mc2.q_phy)
+                ctx.transitions += 2
+                require(close(out, mc2.q_exp), f"{P}.{op}+build_spline:interp_genpos",
+                        lambda: f"after dropping chromosome {drop} by {op} and build_spline(): {out.tolist()} expected {mc2.q_exp.tolist()}")
+                dead = g.interp_genpos(dq_c, dq_x)
+                require(bool(numpy.isnan(dead).all()), f"{P}.{op}+build_spline:dropped-chromosome-still-interpolated",
+                        lambda: f"chromosome {drop} was dropped from the map by {op} and the spline rebuilt, but positions {dq_x.tolist()} on it "
+                                f"still interpolate to {dead.tolist()} (expected NaN: the chromosome is absent from the map)")
+                ctx.flag("chromset:" + op)
+            ok &= _law(ctx, shrink, case, f"{P}.{op}:chromset:")
+    return ok
+
+
+def _full_state(g, q_chr, q_phy):
+    """everything observable about a map: arrays, group metadata, spline answers"""
+    st = {k: (None if getattr(g, k, None) is None else numpy.array(getattr(g, k)).copy())
+          for k in ("vrnt_chrgrp", "vrnt_phypos", "vrnt_genpos", "vrnt_stop", "vrnt_name", "vrnt_fncode",
+                    "vrnt_chrgrp_name", "vrnt_chrgrp_stix", "vrnt_chrgrp_spix", "vrnt_chrgrp_len") if hasattr(g, k)}
+    st["spline_kind"], st["spline_fill_value"] = g.spline_kind, g.spline_fill_value
+    st["spline_keys"] = sorted(int(k) for k in g.spline) if g.spline is not None else None
+    st["interp"] = g.interp_genpos(q_chr, q_phy)
+    return st
+
+
+def _state_diff(a, b):
+    for k in a:
+        x, y = a[k], b[k]
+        if isinstance(x, numpy.ndarray) or isinstance(y, numpy.ndarray):
+            if x is None or y is None or x.shape != y.shape or x.dtype != y.dtype:
+                return k
+            if x.dtype == object:
+                if x.tolist() != y.tolist():
+                    return k
+            elif not numpy.array_equal(x, y, equal_nan=(x.dtype.kind == "f")):
+                return k
+        elif x != y:
+            return k
+    return None
+
+
+def _laws_nonmutating(ctx, mc, case):
+    """query - call a public method that is documented as non-mutating - query again: the full state of the map and its
+    answers must be bit-identical, and a repeated export must equal the first one (both unit options, both classes)."""
+    import tempfile
+    with tempfile.TemporaryDirectory(prefix="mc_c11_") as d:      # files written by to_csv / to_egmap; removed on exit
+        return _laws_nonmutating_in(ctx, mc, case, d)
+
+
+def _laws_nonmutating_in(ctx, mc, case, d):
+    import os
+    P = mc.clsname
+    ok = True
+    qc, qx = _q([(r[0], r[1]) for r in mc.rows] + [(mc.absent, 3)])
+    qs = sorted((r[0], r[1]) for r in mc.rows)
+    sc, sx = _q(qs)
+    ext = mc.ext is not None
+    fns = [_cls(n)() for n in FNS]
+    for mode in ("auto", "cM"):
+        box = {}
+
+        def construct(mode=mode):
+            box["g"] = build(mc.clsname, mode, mc.rows[::-1])
+            box["g"].interp_genpos(qc, qx)       # settle lazy grouping before the snapshot
+            box["s0"] = box["prev"] = _full_state(box["g"], qc, qx)
+            ctx.transitions += 3
+        if not ctx.guard(construct, case=case, sig_prefix=P + ":"):
+            return False
+        g, s0 = box["g"], box["s0"]
+        ekw = dict(vrnt_stop=sx + 1) if ext else {}
+        calls = [("to_pandas[cM]", lambda: g.to_pandas()), ("to_pandas[cM]#2", lambda: g.to_pandas()),
+                 ("to_pandas[M]", lambda: g.to_pandas(vrnt_genpos_units="M")),
+                 ("to_csv", lambda: g.to_csv(os.path.join(d, "m.csv"))),
+                 ("copy", lambda: g.copy()), ("deepcopy", lambda: g.deepcopy()),
+                 ("interp_genpos", lambda: g.interp_genpos(sc, sx)), ("interp_gmap", lambda: g.interp_gmap(sc.copy(), sx.copy(), **ekw)),
+                 ("gdist1g", lambda: g.gdist1g(mc.c_chr, mc.c_gen)), ("gdist2g", lambda: g.gdist2g(mc.c_chr, mc.c_gen)),
+                 ("gdist1p", lambda: g.gdist1p(sc, sx)), ("gdist2p", lambda: g.gdist2p(sc, sx)),
+                 ("rprob1g", lambda: fns[0].rprob1g(g, mc.c_chr, mc.c_gen)), ("rprob2p", lambda: fns[1].rprob2p(g, sc, sx)),
+                 ("is_congruent", lambda: g.is_congruent()), ("congruence", lambda: g.congruence()),
+                 ("has_spline", lambda: g.has_spline()), ("is_grouped", lambda: g.is_grouped()), ("lexsort", lambda: g.lexsort()),
+                 ("len", lambda: len(g))]
+        if ext:
+            calls.insert(4, ("to_egmap", lambda: g.to_egmap(os.path.join(d, "m.egmap"))))
+        results = {}
+        for name, fn in calls:
+            def one(name=name, fn=fn):
+                results[name] = fn()
+                ctx.transitions += 2
+                ctx.evaluations += 1
+                sp = box["prev"]                      # state right before THIS call (only the mutating method is blamed)
+                s1 = _full_state(g, qc, qx)
+                box["prev"] = s1
+                k = _state_diff(sp, s1)
+                require(k is None, f"{P}.{name.split('[')[0].split('#')[0]}:mutates-map",
+                        lambda: f"{name} changed the map's {k}: {sp[k]!r} -> {s1[k]!r} (rows {[(r[0], r[1], r[2]) for r in mc.rows]}, construction units {mode})")
+            ok &= _law(ctx, one, case, f"{P}.{name}:")
+        ctx.flag("nonmutating:" + mode)
+
+        def exports():
+            a, b, m_ = results.get("to_pandas[cM]"), results.get("to_pandas[cM]#2"), results.get("to_pandas[M]")
+            if a is None or b is None or m_ is None:
+                return
+            col = "cM"
+            require(a.equals(b), P + ".to_pandas:second-export-differs", lambda: f"first export {a[col].tolist()} second {b[col].tolist()}")
+            require(a["chr"].tolist() == mc.c_chr.tolist() and a["pos"].tolist() == mc.c_phy.tolist()
+                    and close(a[col].to_numpy(dtype=float), 100.0 * mc.c_gen) and close(m_[col].to_numpy(dtype=float), mc.c_gen),
+                    P + ".to_pandas:value", lambda: f"exported {a.to_dict('list')} for rows {[(r[0], r[1], r[2]) for r in mc.rows]}")
+            for nm in ("copy", "deepcopy"):
+                c = results.get(nm)
+                if c is not None and _state_diff(s0, box["prev"]) is None:
+                    require(type(c) is type(g) and _state_diff(s0, _full_state(c, qc, qx)) is None, f"{P}.{nm}:differs", f"{nm}() is not an equal map")
+            if _state_diff(s0, box["prev"]) is None:
+                own = g.interp_genpos(g.vrnt_chrgrp, g.vrnt_phypos)
+                require(close(own, g.vrnt_genpos), P + ".interp_genpos:own-markers", "after the non-mutating calls the map no longer returns its stored positions")
+        ok &= _law(ctx, exports, case, P + ".to_pandas:")
     return ok
 
 
@@ -1107,7 +1266,8 @@ def finalize(ctx, tier, seed):
     for f in ("nchrom:1", "nchrom:2", "nchrom:3", "congruent", "non-congruent", "midpoints", "tied-genetic-positions",
               "q:absent", "q:knot", "q:inside", "q:below", "q:above", "order-preserving-checked",
               "gdist2g:across", "gdist2g:additive-triple", "interp_gmap:own-reversed", "interp_gmap:dense", "interp_gmap:first-two",
-              "interp_gmap:all-unsorted", "edit:remove", "edit:select", "xoprob:start", "xoprob:zero-distance", "xoprob:positive", "xoprob:missing"):
+              "interp_gmap:all-unsorted", "edit:remove", "edit:select", "chromset:remove", "chromset:select", "chromset:interp_gmap",
+              "nonmutating:auto", "nonmutating:cM", "xoprob:start", "xoprob:zero-distance", "xoprob:positive", "xoprob:missing"):
         assert f in ctx.flags, f
     for gname in GMATS[:2]:
         for f in FNS:
